@@ -23,6 +23,30 @@ CLAIMED = {
  "C09": dict(level="exploration", engine="E1-world+E2-faults", technique="stateful PBT with a tracking SecretFactory (resource-accounting invariants) plus fault-position enumeration (store/KMS/AEAD/allocator)",
    text="Every secret the SDK allocates is accounted for: DRK closed before Encrypt returns, nothing live after a no-cache call, per-(process,key) live copies bounded by the caches entitled to hold them and by capacity, zero live / closed once / never read after close once everything is closed; the same under every single injected fault position.",
    note=W+"; tracker mirrors the securememory contract; cross-checked with real memguard + InUseCounter", ref="3/C09"),
+ "C06": dict(level="exploration", engine="pairs", technique="PBT over adversarially constructed id pairs (must-reject relation, both directions, all store kinds and cache states)",
+   text="Thousands of (service, product, region, P, Q) tuples built to collide with the key-id naming scheme; a session for P must reject Q's record (and vice versa) with plain, suffixed and DynamoDB metastores and warm/cold/shared/session caches; each partition must still read its own record.",
+   note="region suffixes are AWS region names (no underscore); service/product names ending in the region string are not generated (the underscore-joined id scheme is ambiguous there)", ref="3/C06"),
+ "C07": dict(level="exploration", engine="mutations", technique="systematic mutation enumeration (all single-bit flips / truncations / recombinations / corrupted rows) + rapid mutation programs + native fuzzing, oracle 'original payload or error, no panic'",
+   text="Exhaustive single-bit and length mutations of Data and the encrypted key of genuine records (warm and cold sessions) and on the AEAD itself, full recombination of fields across partitions / key generations, structural malformations, Load with failing loaders, and every single-row corruption of the key table behind a genuine record.",
+   note="the single-bit space is exhausted only for the short payloads in the pool; which error is returned is not asserted", ref="3/C07"),
+ "C10": dict(level="exploration", engine="E1-world+E2-faults", technique="stateful PBT + fault-position enumeration with buffer-retaining spies (AEAD, KMS, SecretFactory, fake regional AWS KMS); oracle: retained key buffers are all zero after the call",
+   text="Every slice handed out by the AEAD/KMS spies or passed to the secret factory that held key material must be zero when the public call returns, over generated histories with the real memguard/protectedmemory factories, under every injected fault position, and for both AWS KMS plugins with per-region failures.",
+   note="only buffers that cross the AEAD/KMS/SecretFactory interfaces are visible", ref="3/C10"),
+ "C13": dict(level="exploration", engine="metastore-model", technique="model-based stateful PBT against a reference key table, over semantic fakes of database/sql and DynamoDB (v1+v2 adapters)",
+   text="Random Store/Load/LoadLatest sequences over overlapping ids and timestamps on the memory, SQL (3 dialects) and both DynamoDB metastores; the fakes interpret the SQL / expressions, enforce the documented schema and serve plain reads eventually consistently, so ordering, uniqueness, consistency flags and field fidelity are checked as behaviour.",
+   note="trusted base: the fakes' reading of SQL / DynamoDB semantics; no real database", ref="3/C13"),
+ "C15": dict(level="exploration", engine="cache-model", technique="model-based testing: exhaustive short operation sequences + long rapid sequences + rapid.MakeFuzz under go fuzz, against a reference bounded map with policy models",
+   text="All sequences up to length 4 (6 in thorough) over Set/Get/Delete x 3 keys, clock advance and Close for every policy, capacities 1-3 (and TinyLFU at 99/100/101/200) with and without expiry, plus long random sequences at capacities on both sides of every internal threshold, synchronous and asynchronous; presence is owned by the callbacks, victims checked for LRU/LFU/SLRU.",
+   note="Delete callbacks 0 or 1, sliding expiry tolerated, TinyLFU victims and capacity 0 not asserted", ref="3/C15"),
+ "C17": dict(level="fault_enumeration", engine="aws-kms-fakes", technique="exhaustive enumeration of regional failure subsets over fake regional KMS endpoints; oracle from the endpoints' call logs (truth table)",
+   text="For 1-3 regions (4 in thorough), every preferred region, every subset failing GenerateDataKey / Encrypt at wrap and Decrypt / wrong-bytes at unwrap, wrapper and unwrapper each in {v1, v2}: success conditions, envelope contents, preferred-first order, at-most-once and stop-at-first-success are checked from the call log.",
+   note="fake regional KMS = AES-GCM under per-region master keys; order among non-preferred regions not asserted", ref="3/C17"),
+ "C18": dict(level="exploration", engine="refimpl", technique="two-way differential PBT against an independent reference implementation with strict parsers, per carrier (JSON, SQL row, both DynamoDB item shapes, protobuf mapping)",
+   text="Everything the SDK emits is parsed by strict reference parsers and decrypted from the raw rows alone; everything the reference emits in each carrier's documented shape is decrypted (and adopted) by the SDK; key ids and the ciphertext||tag||nonce layout are checked by use.",
+   note="trusted base: my reading of the documentation embodied in the reference implementation", ref="3/C18"),
+ "C19": dict(level="exploration", engine="stream-model", technique="exhaustive short request sequences + rapid concurrent streams + real gRPC sample + native fuzz target, against a three-state protocol model and an SDK differential",
+   text="Every request sequence up to length 4 (5 in thorough) over an 11-symbol alphabet through an in-memory stream against the real NewAppEncryption, longer random sequences on up to 8 concurrent streams, and a sample through real gRPC over bufconn: one reply per request, protocol errors, round trips, no panic in any state.",
+   note="reply to an empty request and get-session after a rejected one are left free", ref="3/C19"),
  "C20": dict(level="exploration", engine="E1-world", technique="stateful PBT with virtual clock; call-count invariants over the spy metastore/KMS log",
    text="Generated histories with repeated operations around the revoke-check interval: free repeats inside the interval, single re-read after it, at most one KMS unwrap per SK per factory per interval, nothing retained with caching disabled.",
    note=W+"; asserted only when the working set fits the caches and outside key creation (rotation handling)", ref="3/C20"),
